@@ -19,7 +19,7 @@ RULE = ("C01's schemas and reachable states (a valid prefix history), then faili
         "fields/include_field.py during loads/load; whenever such an operation raises, M-same compares values at all "
         "depths, user-defined flags and identities of nested configurations before/after; non-trivial = >= 2 "
         "raising listed operations judged; distinct = distinct (schema, history)")
-REQUIRED = ("list_reuse_rejections", "wrong_root_documents_rejected", "incomplete_objects_rejected", "incomplete_maps_rejected", "dotted_into_dict_rejections", "corrupt_include_files", "same_checks", "raised:set", "raised:set-sub", "raised:ctor", "raised:listop", "raised:dictop",
+REQUIRED = ("dotted_continuations_into_nested_dicts_rejected", "derived_containers_rejected_by_field_validator", "list_reuse_rejections", "wrong_root_documents_rejected", "incomplete_objects_rejected", "incomplete_maps_rejected", "dotted_into_dict_rejections", "corrupt_include_files", "same_checks", "raised:set", "raised:set-sub", "raised:ctor", "raised:listop", "raised:dictop",
             "raised:loads-unparsable", "raised:loads-include", "failpoint_injections_raised")
 ASSUMPTIONS = ["only the kinds of operation listed in the property are judged (a tree that parses but fails validation "
                "half way, extend / slice / update with a bad element are outside the statement)",
@@ -32,6 +32,26 @@ def generate(rng, ctx):
     thorough = ctx.tier == "thorough"
     schema = gen.gen_schema(rng, depth=rng.choice([1, 2, 3] if thorough else [1, 2]), width=rng.choice([3, 4, 5]))
     env = gen.GEN_ENV
+    # some typed lists / dicts carry a field-level validator callback that limits their size
+    for path, nd in history.all_paths(schema):
+        if "[]" not in path and nd["kind"] == "field" and nd["family"] in ("list", "dict") and history._typed(nd) and rng.random() < 0.5:
+            if nd["family"] == "list" and nd["item"]["kind"] != "field":
+                continue
+            nd["params"]["validator"] = "maxlen2"
+            d = nd["params"].get("default")
+            if isinstance(d, (list, dict)) and len(d) > 2:
+                nd["params"].pop("default")
+    # a typed dict of typed dicts (dotted paths may continue into it, or be taken for a key)
+    if rng.random() < 0.5:
+        inner = {"kind": "field", "family": "dict", "params": {}, "keyf": {"kind": "field", "family": "str", "params": {}},
+                 "valf": {"kind": "field", "family": "int", "params": {"max": 100}}}
+        holder = schema
+        if subs0 := [ch for ch in schema["fields"] if ch["kind"] == "schema"]:
+            if rng.random() < 0.5:
+                holder = rng.choice(subs0)
+        if not any(ch["key"] == "dd0" for ch in holder["fields"]):
+            holder["fields"].append({"kind": "field", "key": "dd0", "family": "dict", "params": {},
+                                     "keyf": {"kind": "field", "family": "str", "params": {}}, "valf": inner})
     # include fields at the root and/or in one nested schema
     inc = []
     if rng.random() < 0.6:
@@ -120,6 +140,37 @@ def targeted_ops(rng, schema, env):
     for path, nd in history.all_paths(schema):
         if "[]" in path:
             continue
+        if nd["kind"] == "field" and nd.get("params", {}).get("validator") == "maxlen2":
+            # the field's own validator callback rejects more than two entries: fill it with two, then assign containers
+            # derived from the live one (the callback runs after the items were validated)
+            two = None
+            for _ in range(6):
+                cand = gen.one_value(rng, nd, "valid", env)
+                if isinstance(cand, (list, dict)) and len(cand) == 2:
+                    two = cand
+                    break
+            if two is None and nd["family"] == "list":
+                xs = [gen.one_value(rng, nd["item"], "valid", env) for _ in range(2)]
+                two = xs if all(x is not None for x in xs) else None
+            if two is not None:
+                ops.append({"op": "set", "route": "attr", "path": path, "value": two})
+                for how in rng.sample(["add", "copy", "plain", "add", "copy"], 3):
+                    op = {"op": "set_grown_copy", "path": path, "how": how, "route": rng.choice(["attr", "item"])}
+                    if nd["family"] == "list":
+                        op["x"] = gen.one_value(rng, nd["item"], "valid", env)
+                    else:
+                        kf, vf = nd.get("keyf"), nd.get("valf")
+                        op["kv"] = [gen.one_value(rng, kf, "valid", env) if kf else "zg%d" % rng.randrange(99),
+                                    gen.one_value(rng, vf, "valid", env) if vf else 1]
+                    ops.append(op)
+        if nd["kind"] == "field" and nd["key"] == "dd0" and nd["family"] == "dict":
+            # rejected entries addressed by a dotted continuation: no part of the way may stay behind
+            if rng.random() < 0.5:
+                ops.append({"op": "set", "route": "attr", "path": path, "value": {"web": {"burst": 1}}})
+            for k in rng.sample(["web.burst", "us.east.rate", "db.pool", "web.rate"], 3):
+                bad = rng.choice(["notint", 1000, None, [1], {"x": "y"}])
+                ops.append({"op": "set_dict_dotted", "path": path, "kv": [k, bad], "deep": True})
+                ops.append({"op": "dictop", "path": path, "name": "setitem", "kv": [k, bad], "pairs": [[k, bad]], "kind": "dict"})
         if nd["kind"] in ("schema", "ctype"):
             # a map whose every value is fine but which leaves a required field of the sub-configuration out (also one
             # level further down): rejected only by the whole-configuration validation at the very end
@@ -205,6 +256,10 @@ def run(case, ctx, res):
         if out is None:
             res.count("ops_skipped")
             continue
+        if op.get("deep") and out["raised"] is not None:
+            res.count("dotted_continuations_into_nested_dicts_rejected")
+        if out.get("grown_copy") and out["raised"] is not None:
+            res.count("derived_containers_rejected_by_field_validator")
         if out.get("reuse") and out["raised"] is not None:
             res.count("list_reuse_rejections")
         if op.get("corrupt") in ("seqroot", "multidoc", "scalarroot") and out["raised"] is not None:
